@@ -28,7 +28,13 @@ def build(contracts):
     u.struct(FT, 'TimeDelta', expect_fields='struct TimeDelta { secs: i64, nanos: i32, }')
     u.struct(F, 'NaiveTime', expect_fields='struct NaiveTime { secs: u32, frac: u32, }')
     u.struct(FO, 'FixedOffset', expect_fields='struct FixedOffset { local_minus_utc: i32, }')
-    u.raw(P.TD_VIEW + P.TIME_VIEW + LEMMAS)
+    u.raw(P.TD_VIEW + P.TIME_VIEW + LEMMAS + '''
+use core::time::Duration;
+pub uninterp spec fn dur_secs(d: core::time::Duration) -> u64;
+pub uninterp spec fn dur_nanos(d: core::time::Duration) -> u32;
+pub assume_specification [core::time::Duration::as_secs] (d: &core::time::Duration) -> (r: u64) ensures r == dur_secs(*d);
+pub assume_specification [core::time::Duration::subsec_nanos] (d: &core::time::Duration) -> (r: u32) ensures r == dur_nanos(*d), r < 1_000_000_000;
+''')
     u.raw('impl TimeDelta {')
     for n in ['num_seconds', 'subsec_nanos', 'new', 'neg']:
         u.stub(FT, n, 'impl TimeDelta {', cid='TimeDelta::' + n)
@@ -55,6 +61,10 @@ def build(contracts):
     u.prove(F, 'add', 'impl Add<TimeDelta> for NaiveTime {', cid='NaiveTime::Add__add', rename='Add__add')
     u.prove(F, 'sub', 'impl Sub<TimeDelta> for NaiveTime {', cid='NaiveTime::Sub__sub', rename='Sub__sub')
     u.prove(F, 'sub', 'impl Sub<NaiveTime> for NaiveTime {', cid='NaiveTime::Sub_NaiveTime__sub', rename='Sub_NaiveTime__sub')
+    u.prove(F, 'add', 'impl Add<Duration> for NaiveTime {', cid='NaiveTime::Add_Duration__add', rename='Add_Duration__add')
+    u.prove(F, 'sub', 'impl Sub<Duration> for NaiveTime {', cid='NaiveTime::Sub_Duration__sub', rename='Sub_Duration__sub')
+    u.prove(F, 'add', 'impl Add<FixedOffset> for NaiveTime {', cid='NaiveTime::Add_FixedOffset__add', rename='Add_FixedOffset__add')
+    u.prove(F, 'sub', 'impl Sub<FixedOffset> for NaiveTime {', cid='NaiveTime::Sub_FixedOffset__sub', rename='Sub_FixedOffset__sub')
     u.raw('}')
     u.raw(P.FOOTER)
     return u
